@@ -34,12 +34,12 @@ CLAIMED = {
             "bytes and leaves exactly the rest; uses `recvFrame_virt`: stage fields are a lossless encoding of the bytes consumed). The "
             "handshake/frames boundary and automatic replies under segmentation are held by correspondence on identical schedules and the "
             "metamorphic oracle on the real code.", "Not modelled: EAGAIN+select path, SSL 'timed out' message matching.", "DESIGN.md §6 C03"),
-    "C04": ("Lean 4 theorem C04_reassembly (loop over any fragmented message with interleaved control frames, concrete parser+transport model)" + T_CORR,
+    "C04": ("Lean 4 theorems C04_reassembly and C04_messages (any sequence of messages, any fragmentation, interleaved control frames, concrete parser+transport model)" + T_CORR,
             "Proof: `C04_reassembly` — for every message (any number of fragments incl. empty ones, text/binary, any pings<=125/pongs before "
             "each fragment) over any chunking, one recv_data_frame() call returns it once with the first fragment's opcode and the in-order "
             "concatenation (or PAYLOAD for non-UTF-8 text), consumes exactly its frames and resets the reassembly state (so consecutive "
-            "messages come in order). Per-fragment delivery (fire_cont_frame) and multi-message lists are held by correspondence over every "
-            "cut of short payloads into <= 4 fragments, control frames in every gap, and random lists.", "", "DESIGN.md §6 C04"),
+            "messages come in order: `C04_messages`, induction on the sequence). Per-fragment delivery (fire_cont_frame) is held by "
+            "correspondence over every cut of short payloads into <= 4 fragments, control frames in every gap, and random lists.", "", "DESIGN.md §6 C04"),
     "C05": ("Lean 4 theorem C05_close_codes (code table = RFC ranges for every number)" + T_CORR,
             "Proof: `C05_close_codes` for every Nat (all 65536 wire values) over the generated tuple and range literals; C02_decode shows the "
             "frame handed to validate is the decoder's. Frame-level rejection (all 256 first bytes x length classes, close bodies of every "
